@@ -16,6 +16,9 @@ def sh(cmd, cwd=None, timeout=3600):
     p = subprocess.run(cmd, shell=True, cwd=cwd, env=env, stdout=subprocess.PIPE, stderr=subprocess.STDOUT, text=True, timeout=timeout)
     return p.returncode, p.stdout
 meta = {"property": prop, "mutation": m}
+if os.path.exists(os.path.join(dst, "meta.json")):
+    try: meta.update(json.load(open(os.path.join(dst, "meta.json"))))
+    except Exception: pass
 patch = os.path.join(src, "patch.diff")
 shutil.copy(patch, dst)
 if os.path.exists(os.path.join(src, "demo.rs")): shutil.copy(os.path.join(src, "demo.rs"), dst)
